@@ -359,8 +359,31 @@ func runC01One(cs *vrt.Case) {
 		maxG := []int{6, 30, 120, 400}[r.Intn(4)]
 		sh := refc.RandShape(r, r.Range(1, 3), maxG)
 		c := refc.Gen(r, sh)
+		if cs.Idx%16 == 9 {
+			// many input wires (around and beyond 1024, 2048, 4096), every one of
+			// them folded into the outputs: acc = op(acc, in[i]), mostly XOR
+			n := vrt.Pick(r, []int{1023, 1024, 1025, 1500, 2047, 2049, 4100})
+			c = &circuit.Circuit{NumGates: n - 1, NumWires: 2*n - 1,
+				Inputs:  circuit.IO{{Type: uintT(n / 2)}, {Type: uintT(n - n/2)}},
+				Outputs: circuit.IO{{Type: uintT(8)}}}
+			acc := circuit.Wire(0)
+			for i := 1; i < n; i++ {
+				op := circuit.XOR
+				if r.Intn(5) == 0 {
+					op = vrt.Pick(r, []circuit.Operation{circuit.AND, circuit.OR, circuit.XNOR})
+				}
+				c.Gates = append(c.Gates, circuit.Gate{Op: op, Input0: acc, Input1: circuit.Wire(i), Output: circuit.Wire(n + i - 1)})
+				acc = circuit.Wire(n + i - 1)
+			}
+			sh = refc.Shape{Args: []int{n / 2, n - n/2}, Outs: []int{8}, Gates: n - 1}
+			cs.Count("circuits_with_more_than_1000_input_wires", 1)
+		}
 		nin := c.Inputs.Size()
 		vecs, exh := allOrSampled(r, nin, 8, 64)
+		if nin > 1000 {
+			ones := new(big.Int).Sub(new(big.Int).Lsh(big.NewInt(1), uint(nin)), big.NewInt(1))
+			vecs = append(vecs, ones, new(big.Int), new(big.Int).Lsh(big.NewInt(1), uint(nin-1)), new(big.Int).Rsh(ones, 1))
+		}
 		nontriv := refc.Depends(c)
 		reps := r.Range(1, 3)
 		// half of the cases hand every garbling of the circuit the same key
